@@ -16,6 +16,7 @@ import (
 
 	"github.com/sourcenetwork/immutable"
 
+	acpTypes "github.com/sourcenetwork/defradb/acp/types"
 	"github.com/sourcenetwork/defradb/client"
 	"github.com/sourcenetwork/defradb/client/request"
 	"github.com/sourcenetwork/defradb/errors"
@@ -23,6 +24,7 @@ import (
 	coreblock "github.com/sourcenetwork/defradb/internal/core/block"
 	"github.com/sourcenetwork/defradb/internal/datastore"
 	"github.com/sourcenetwork/defradb/internal/db/fetcher"
+	"github.com/sourcenetwork/defradb/internal/db/permission"
 	"github.com/sourcenetwork/defradb/internal/keys"
 	"github.com/sourcenetwork/defradb/internal/planner/mapper"
 )
@@ -253,6 +255,17 @@ func (n *dagScanNode) Next() (bool, error) {
 		}
 	}
 
+	// Commits carry the deltas of the document they belong to, so they are only visible to
+	// requesters with read access to that document.
+	canRead, err := n.hasReadAccess(dagBlock)
+	if err != nil {
+		return false, err
+	}
+	if !canRead {
+		n.visitedNodes[currentCid.String()] = true
+		return n.Next()
+	}
+
 	currentValue, err := n.dagBlockToNodeDoc(dagBlock)
 	if err != nil {
 		return false, err
@@ -336,6 +349,45 @@ which returns the current dag commit for the stored CRDT value.
 
 All the dagScanNode endpoints use similar structures
 */
+
+// hasReadAccess returns true if the requester may read the document the given block belongs to.
+//
+// Blocks that do not belong to a document (collection level commits) and blocks of collections
+// without a policy are always readable.
+func (n *dagScanNode) hasReadAccess(block *coreblock.Block) (bool, error) {
+	if !n.planner.documentACP.HasValue() {
+		return true, nil
+	}
+
+	docID := string(block.Delta.GetDocID())
+	if docID == "" {
+		return true, nil
+	}
+
+	cols, err := n.planner.db.GetCollections(
+		n.planner.ctx,
+		client.CollectionFetchOptions{
+			IncludeInactive: immutable.Some(true),
+			VersionID:       immutable.Some(block.Delta.GetSchemaVersionID()),
+		},
+	)
+	if err != nil {
+		return false, err
+	}
+	if len(cols) == 0 {
+		// dagBlockToNodeDoc reports the missing collection
+		return true, nil
+	}
+
+	return permission.CheckAccessOfDocOnCollectionWithACP(
+		n.planner.ctx,
+		n.planner.identity,
+		n.planner.documentACP.Value(),
+		cols[0],
+		acpTypes.DocumentReadPerm,
+		docID,
+	)
+}
 
 func (n *dagScanNode) dagBlockToNodeDoc(block *coreblock.Block) (core.Doc, error) {
 	commit := n.commitSelect.DocumentMapping.NewDoc()
